@@ -15,8 +15,19 @@
      - the responses are compared as a set (each carries its request, requests are distinguished by r_tag): the
        clients of concurrent requests log their responses in no particular order;
      - c02_mon on the recorded log: no response other than the masquerade's before an accepting verdict.
+   CAbort: one connection on which user callbacks of ServeHTTP end abnormally at some requests (the masquerade handler
+   aborts its response / panics / takes the stream over, the authenticator panics, a logger panics) and further
+   requests follow on the same connection (harness/go/c02/c02abort_test.go).  The recorded log is replayed through the
+   extended LTS of model/C02_Abort.v, whose masquerade handler has an outcome per request: MResp p or MAbort sent.
+     - the action sequence must be accepted (a request that is never answered leaves the model inside Authenticate or
+       without the response the log lacks: refused);
+     - the handler-side observables must be the model's, in order; the client-side outcomes must be the model's in order,
+       where an aborted response may have delivered LESS than the handler had flushed (a stream reset overtakes data):
+       nothing, or the same status and headers and a prefix of the body;
+     - monitors on the recorded log: a complete response is the handler's unless the connection was accepted before;
+       an abort is the handler's own abort, or that of an auth request with nothing delivered (authenticator / logger panic).
    Used by the generated run/C02/cases_*.v files; not part of any theorem. *)
-From Hy Require Import gen.ParamsC01 model.C01_ServerAuth corr.C01_Corr.
+From Hy Require Import gen.ParamsC01 model.C01_ServerAuth corr.C01_Corr model.C02_Abort.
 Local Open Scope N_scope.
 
 Record rq := mkRq {
@@ -30,9 +41,24 @@ Record rq := mkRq {
   q_oracle : response        (* the masquerade handler alone *)
 }.
 
+(* one request of an abort history *)
+Record xrq := mkXRq {
+  xq_req : request;
+  xq_was : bool;
+  xq_called : bool;
+  xq_tx : N;
+  xq_acc : bool;
+  xq_padn : N;
+  xq_fault : N;               (* the callback that failed while the request was served: 0 none, 1 masquerade handler,
+                                 2 authenticator, 3 logger (from the boundary log) *)
+  xq_out : mres;              (* observed: the complete response, or what arrived of an aborted one *)
+  xq_oracle : mres            (* the masquerade handler alone *)
+}.
+
 Inductive case :=
 | CConn (cfg : config) (masq_seen : bool) (table : list response) (log : list ev) (rs : list rq)
-| CGate (cfg : config) (masq_seen : bool) (table : list response) (log : list ev) (rs : list rq).
+| CGate (cfg : config) (masq_seen : bool) (table : list response) (log : list ev) (rs : list rq)
+| CAbort (cfg : config) (table : list mres) (log : list xev) (rs : list xrq).
 
 Definition check_rq (cfg : config) (q : rq) : bool :=
   let r := q_req q in
@@ -66,18 +92,141 @@ Definition check_conc (cfg : config) (ms : bool) (table : list response) (log : 
       c01_mon [] log && c02_mon masq [] log && forallb pad_in_range log
   end.
 
+(* ---------------------------------------------------------------- abort histories *)
+
+Fixpoint is_prefix (a b : str) : bool :=
+  match a, b with
+  | [], _ => true
+  | x :: a', y :: b' => Byte.eqb x y && is_prefix a' b'
+  | _ :: _, [] => false
+  end.
+
+(* what arrived of an aborted response (a) against what the handler had flushed (b) *)
+Definition sent_le (a b : option response) : bool :=
+  match a, b with
+  | None, _ => true
+  | Some x, Some y => resp_eqb (mkResp (status x) (hdrs x) []) (mkResp (status y) (hdrs y) []) && is_prefix (body x) (body y)
+  | Some _, None => false
+  end.
+
+Definition mres_le (observed model : mres) : bool :=
+  match observed, model with
+  | MResp a, MResp b => resp_eqb a b
+  | MAbort a, MAbort b => sent_le a b
+  | _, _ => false
+  end.
+
+Definition table_xmasq (table : list mres) (r : request) : mres := nth (N.to_nat (r_tag r)) table (MResp resp0).
+
+Definition xobs_of (tr : list xev) : list xobs := flat_map (fun e => match e with XE o => [o] | XA _ => [] end) tr.
+Definition xacts_of (tr : list xev) : list xaction := flat_map (fun e => match e with XA a => [a] | XE _ => [] end) tr.
+
+Definition x_client_side (o : xobs) : bool := match o with XO x => client_side x | XAbort _ _ _ => true end.
+Definition x_proxy_side (o : xobs) : bool := match o with XO x => proxy_side x | XAbort _ _ _ => false end.
+
+Definition xproj (c : cid) (side : bool) (l : list xobs) : list xobs :=
+  filter (fun o => (xobs_conn o =? c) && Bool.eqb (x_client_side o) side && negb (x_proxy_side o)) l.
+
+(* model against recorded *)
+Definition xobs_le (m o : xobs) : bool :=
+  match m, o with
+  | XO a, XO b => obs_eqb a b
+  | XAbort c r s, XAbort c' r' s' => (c =? c') && req_eqb r r' && sent_le s' s
+  | _, _ => false
+  end.
+
+Fixpoint xobs_list_le (a b : list xobs) : bool :=
+  match a, b with
+  | [], [] => true
+  | x :: a', y :: b' => xobs_le x y && xobs_list_le a' b'
+  | _, _ => false
+  end.
+
+Definition opt_is_none {A} (o : option A) : bool := match o with None => true | Some _ => false end.
+
+(* on the recorded log: responses and aborts are the handler's, unless ... *)
+Fixpoint x02_mon (masq : request -> mres) (seen : list cid) (tr : list xev) : bool :=
+  match tr with
+  | [] => true
+  | e :: t =>
+      (match e with
+       | XE (XO (ObsResp c r resp)) => mres_le (MResp resp) (masq r) || existsb (N.eqb c) seen
+       | XE (XAbort c r sent) => mres_le (MAbort sent) (masq r) || (is_auth_req r && opt_is_none sent)
+       | _ => true
+       end) &&
+      x02_mon masq (match e with XA a => match x_accepts a with Some c => c :: seen | None => seen end | _ => seen end) t
+  end.
+
+(* ... and nothing reaches the outbound before the connection is accepted *)
+Fixpoint x01_mon (seen : list cid) (tr : list xev) : bool :=
+  match tr with
+  | [] => true
+  | e :: t =>
+      (match e with
+       | XE (XO o) => match outbound_conn (EObs o) with Some c => existsb (N.eqb c) seen | None => true end
+       | _ => true
+       end) &&
+      x01_mon (match e with XA a => match x_accepts a with Some c => c :: seen | None => seen end | _ => seen end) t
+  end.
+
+Definition x_pad_in_range (e : xev) : bool := match e with XE (XO o) => pad_in_range (EObs o) | _ => true end.
+
+Definition mres_status_233 (m : mres) : bool :=
+  match m with MResp p | MAbort (Some p) => status p =? status_auth_ok | MAbort None => false end.
+
+Definition check_xrq (cfg : config) (q : xrq) : bool :=
+  let r := xq_req q in
+  let auth := is_auth_req r in
+  Bool.eqb (xq_called q) (auth && negb (xq_was q)) &&
+  (if xq_called q then xq_tx q =? parse_u64 (r_ccrx r) else true) &&
+  (if auth && (xq_was q || xq_acc q)
+   then (if xq_fault q =? 3 then mres_le (xq_out q) (MAbort None) && mres_le (MAbort None) (xq_out q)
+         else mres_le (xq_out q) (MResp (resp_auth_ok cfg (pad_of (xq_padn q)))))
+   else if xq_fault q =? 2 then mres_le (xq_out q) (MAbort None) && mres_le (MAbort None) (xq_out q)
+   else mres_le (xq_out q) (xq_oracle q) && negb (mres_status_233 (xq_out q))).
+
+Definition check_abort (cfg : config) (table : list mres) (log : list xev) : bool :=
+  let masq := table_xmasq table in
+  match xrun cfg masq init (xacts_of log) with
+  | None => false
+  | Some (_, tr) =>
+      forallb (fun c => xobs_list_le (xproj c false (xobs_of tr)) (xproj c false (xobs_of log)) &&
+                        xobs_list_le (xproj c true (xobs_of tr)) (xproj c true (xobs_of log)))
+              [0; 99] &&
+      x01_mon [] log && x02_mon masq [] log && forallb x_pad_in_range log
+  end.
+
 Definition check (c : case) : bool :=
   match c with
   | CConn cfg ms table log rs =>
       C01_Corr.check (CHist cfg 1 ms table log) && forallb (check_rq cfg) rs
   | CGate cfg ms table log rs =>
       check_conc cfg ms table log && forallb (check_rq cfg) rs
+  | CAbort cfg table log rs =>
+      check_abort cfg table log && forallb (check_xrq cfg) rs
+  end.
+
+(* diagnosis helper for a failing CAbort case *)
+Definition explain_abort (c : case) : list N :=
+  match c with
+  | CAbort cfg table log rs =>
+      let masq := table_xmasq table in
+      match xrun cfg masq init (xacts_of log) with
+      | None => [0]
+      | Some (_, tr) =>
+          (if xobs_list_le (xproj 0 false (xobs_of tr)) (xproj 0 false (xobs_of log)) then [] else [1]) ++
+          (if xobs_list_le (xproj 0 true (xobs_of tr)) (xproj 0 true (xobs_of log)) then [] else [2]) ++
+          (if x01_mon [] log then [] else [3]) ++ (if x02_mon masq [] log then [] else [4]) ++
+          (if forallb x_pad_in_range log then [] else [5]) ++ (if forallb (check_xrq cfg) rs then [] else [6])
+      end
+  | _ => []
   end.
 
 (* diagnosis helper for a failing CGate case *)
 Definition explain_conc (c : case) : list N :=
   match c with
   | CConn _ _ _ _ _ => []
+  | CAbort _ _ _ _ => []
   | CGate cfg ms table log rs =>
       let masq := table_masq table in
       match run cfg masq init (acts_of log) with
